@@ -39,12 +39,12 @@ CROSSC = ("MCA", "CCA", "CPCCA", "ComplexMCA")
 ROT = ("EOFRotator", "MCARotator", "CPCCARotator")
 MULTI = ("multi.CCA",)
 CLASSES = SINGLE + CROSSC + ROT + MULTI
-OPS = ("fit", "fit", "fit", "transform", "inverse", "query", "compute", "serialize", "rotate", "bootstrap", "badfit", "transform_other", "intfit", "inttrans")
+OPS = ("fit", "fit", "fit", "transform", "inverse", "query", "compute", "serialize", "rotate", "bootstrap", "badfit", "transform_other", "intfit", "inttrans", "nocoordfit")
 
 
 def required(tier):
     return {
-        "mon": ["answers_compared", "inputs_immutability_checked", "refits", "failpoint:injected", "failpoint:refit_after_fault", "failpoint:injected_in_transform", "bootstrapper_refits"],
+        "mon": ["answers_compared", "inputs_immutability_checked", "refits", "failpoint:injected", "failpoint:refit_after_fault", "failpoint:injected_in_transform", "bootstrapper_refits", "nocoord_fits"],
         "cover": [f"cls:{c}" for c in CLASSES] + ["cfg:raw_weights", "op:rotate", "op:bootstrap", "op:badfit", "op:serialize", "op:compute", "op:transform_other", "op:intfit", "op:inttrans"],
     }
 
@@ -153,6 +153,19 @@ def _bad(data):
         tgt.values[(1,) * tgt.ndim] = np.nan
         out.append(d2)
     return out
+
+
+def _nocoords(data):
+    """A copy in which one feature dimension of every field has no coordinate variable (legal xarray, unusual):
+    whatever fit does with it, the caller's object must stay as it is."""
+
+    def one(o):
+        if isinstance(o, list):
+            return [one(x) for x in o]
+        d = [x for x in o.dims if x != "time"][-1]
+        return o.drop_vars(d) if d in o.coords else o
+
+    return [one(copy.deepcopy(d)) for d in data]
 
 
 def _identical(a, b):
@@ -436,6 +449,16 @@ def run_case(case, obs):
                         obs.check("isolated_nan_fit_raises", False, "fit on data with an isolated NaN returned", tags=dict(tags, symptom="bad_fit_accepted"))
                     except Exception:
                         pass
+                    current = None
+                    continue
+                elif op == "nocoordfit":
+                    data = _nocoords(data)
+                    snap = copy.deepcopy(data)
+                    obs.count("nocoord_fits")
+                    try:
+                        _do_fit(model, base, data, None)
+                    except Exception:
+                        obs.count("op_raised:nocoordfit")
                     current = None
                     continue
                 elif current is None:
